@@ -191,5 +191,78 @@ class Import(Stream):
         return None
 
 
+class ImportTracks(Stream):
+    """several MIDI tracks / channels, possibly mapped to the same instrument: every input note comes back exactly once"""
+    name = "import_tracks"
+    checker = None
+    pair = "property oracle: the multiset of sounding notes of infer_score_with_chords_durations over 2..3 tracks = the input notes"
+    quick, thorough = 300, 5000
+
+    def gen(self, rng, n):
+        for _ in range(n):
+            nb = rng.randrange(1, 5)
+            lens = [F(rng.choice([2, 3, 4, 4]))] * nb
+            chords = []
+            for _ in range(nb):
+                c = rand_chord(rng, modifiers=0.0)
+                c.pop("ton_none", None)
+                c["toct"] = 0; c["coct"] = 0; c["fig"] = rng.choice(["", "6", "7"])
+                chords.append(c)
+            ntr = rng.randrange(2, 4)
+            tracks = [rand_voices(rng, nb, lens) for _ in range(ntr)]
+            while not all(any(v) for v in tracks):
+                tracks = [rand_voices(rng, nb, lens) for _ in range(ntr)]
+            instr = rng.choice([["piano"] * ntr, ["piano", "violin", "piano"][:ntr], ["flute", "flute", "cello"][:ntr]])
+            yield {"chords": chords, "lens": lens, "tracks": tracks, "instr": instr}
+
+    def impl(self, case):
+        from musiclang.analyze.to_musiclang import infer_score_with_chords_durations
+        from musiclang.analyze.item import Item
+        def f():
+            items = []
+            for ti, voices in enumerate(case["tracks"]):
+                for v, notes in enumerate(voices):
+                    for n in notes:
+                        items.append(Item("n", F(n["start"]), F(n["end"]), vel=n["vel"], pitch=60 + n["pitch"], track=ti, channel=ti, voice=v))
+            items.sort(key=lambda x: x.start)
+            chords = [mlang.mk_chord(c).set_duration(F(l)) for c, l in zip(case["chords"], case["lens"])]
+            bars, t = [], F(0)
+            for l in case["lens"]:
+                bars.append((t, t + F(l))); t += F(l)
+            sc = infer_score_with_chords_durations(items, chords, {i: nm for i, nm in enumerate(case["instr"])}, bars)
+            m = sg.merge_rows(sg.impl_rows(sc))
+            names = list(dict.fromkeys(nm for ch in sc.chords for nm in ch.score.keys()))
+            return {"sound": {names[i]: v for i, v in m.items()}, "names": names}
+        return mlang.guarded(f)
+
+    def spec(self, case, r):
+        if mlang.is_exc(r):
+            return {"sig": "import-tracks-raises", "msg": str(r)}
+        want = sorted([n["pitch"], F(n["start"]), F(n["end"]) - F(n["start"]), n["vel"]] for voices in case["tracks"] for v in voices for n in v)
+        got = sorted(e for evs in r["sound"].values() for e in evs)
+        if got != want:
+            missing = [w for w in want if w not in got][:3]
+            return {"sig": "import-tracks-lose-notes", "msg": f"{len(want)} notes in, {len(got)} out; e.g. missing {missing}; parts {r['names']}"}
+        # a part belongs to the instrument of its track
+        by_instr = {}
+        for nm in r["names"]:
+            by_instr.setdefault(nm.split("__")[0], 0)
+            by_instr[nm.split("__")[0]] += 1
+        if set(by_instr) - set(case["instr"]):
+            return {"sig": "import-tracks-wrong-instrument", "msg": str(r["names"])}
+        return None
+
+    def nontrivial(self, case, r):
+        return len(set(case["instr"])) < len(case["instr"])
+
+    def shrink(self, case):
+        for ti, voices in enumerate(case["tracks"]):
+            for vi, v in enumerate(voices):
+                if len(v) > 1:
+                    t2 = [list(x) for x in case["tracks"]]
+                    t2[ti] = voices[:vi] + [v[:-1]] + voices[vi + 1:]
+                    yield dict(case, tracks=t2)
+
+
 def streams():
-    return [Parse(), Import()]
+    return [Parse(), Import(), ImportTracks()]
